@@ -72,6 +72,14 @@ func main() {
 		set, in = streams.C13(*seed, *n)
 	case "c14":
 		set, in = streams.C14(*seed, *n)
+	case "c15":
+		set, in = streams.C15(*seed, *n)
+	case "c16":
+		set, in = streams.C16(*seed, *n)
+	case "c17":
+		set, in = streams.C17(*seed, *n)
+	case "c18":
+		set, in = streams.C18(*seed, *n)
 	case "c20":
 		set, in = streams.C20(*seed, *n)
 	case "admall":
